@@ -16,8 +16,8 @@ import (
 )
 
 func (sc Scenario) consts(loadMode string, maxCrashes int) string {
-	return fmt.Sprintf(" Others = %d\n PhaseLen = %d\n AccBlock = %d\n LoadMode = %q\n MaxCrashes = %d\n",
-		sc.Cfg.N-1, sc.Cfg.PhaseLen, sc.AccBlock, loadMode, maxCrashes)
+	return fmt.Sprintf(" Others = %d\n PhaseLen = %d\n DealBlock = %d\n AccBlock = %d\n LoadMode = %q\n MaxCrashes = %d\n",
+		sc.Cfg.N-1, sc.Cfg.PhaseLen, sc.DealBlock, sc.AccBlock, loadMode, maxCrashes)
 }
 
 // CrashGen is what TLC produced for the KeyperCrash model.
@@ -52,7 +52,7 @@ func GenerateCrash(c *core.Ctx, sc Scenario, maxCrashes int) (*CrashGen, error) 
 	mod := "MCgen_keypercrash"
 	files := map[string][]byte{mod + ".tla": []byte("---- MODULE " + mod + " ----\nEXTENDS KeyperCrashMC\n====\n")}
 	cfg := "CONSTANTS\n" + sc.consts("nilsafe", maxCrashes) + " Emit = TRUE\n" +
-		"SPECIFICATION FairSpec\nINVARIANT EmitBad\nINVARIANT Safety\nINVARIANT InOrder\nINVARIANT EmitDone\nPROPERTY Completes\nPROPERTY Drains\nCHECK_DEADLOCK FALSE\n"
+		"SPECIFICATION FairSpec\nINVARIANT EmitBad\nINVARIANT Safety\nINVARIANT MemMatchesDb\nINVARIANT InOrder\nINVARIANT EmitDone\nPROPERTY Completes\nPROPERTY Drains\nCHECK_DEADLOCK FALSE\n"
 	res, err := tlc.Run(tlc.Opts{Module: mod, CfgText: cfg, Files: files, Workers: 4, Timeout: 20 * time.Minute, HeapGB: 6})
 	if err != nil {
 		return nil, err
@@ -173,22 +173,74 @@ func assumptionsC08() []string {
 	}
 }
 
+// scenarioResult is what one scenario contributed.
+type scenarioResult struct {
+	code       int // -1 = fine
+	violations int
+	cov        J
+	leads      []string
+}
+
 // CheckC08 runs the check of property C08.
 func CheckC08(c *core.Ctx) int {
 	if c.Replay != "" {
 		return ReplayC08(c)
 	}
-	sc := defaultScenario()
+	total := J{"states": 0, "transitions": 0, "traces_validated_against_impl": 0, "evaluations": 0, "distinct_nontrivial": 0}
+	var samples []any
+	var per []any
+	var leads []string
+	violations := 0
+	for _, sc := range scenarios() {
+		r := checkScenario(c, sc)
+		if r.code >= 0 {
+			return r.code
+		}
+		violations += r.violations
+		leads = append(leads, r.leads...)
+		for k := range total {
+			total[k] = total[k].(int) + r.cov[k].(int)
+		}
+		samples = append(samples, r.cov["samples"].([]any)...)
+		delete(r.cov, "samples")
+		r.cov["scenario"] = sc
+		per = append(per, r.cov)
+	}
+	total["samples"] = samples
+	total["scenarios"] = per
+	total["exhaustive"] = c.Thorough()
+	total["spec_level_counterexamples"] = leads
+	total["rule"] = "per scenario (fixed schedule): TLC explores KeyperCrash exhaustively with a bounded number of crashes (safety monitors as invariants, completion and outbox drain as temporal properties under weak fairness, no state constraint) and prints every abstract crash behaviour; " +
+		"on the code side the schedule is re-run once per crash case: connection dropped before the k-th client->server protocol message of the keyper under test (quick: every 5th k and every commit point; thorough: every k), " +
+		"connection dropped after applying a commit / autocommit delete, process death between an accepted broadcast and the outbox delete for every broadcast, the TLC behaviours concretised on the fly, and (thorough) pairs; " +
+		"evaluations = cases executed; distinct_nontrivial = distinct descriptions of where the faults actually fired (protocol message, statement, step) over the cases in which all faults fired"
+	if err := ev.Write(ev.Evidence{PropertyID: c.Prop, Tier: c.Tier, Seed: c.Seed, Level: "model_checking", Coverage: total,
+		Assumptions: assumptionsC08(), WallS: time.Since(c.Start).Seconds(), Violations: violations}); err != nil {
+		fmt.Fprintln(os.Stderr, "cannot write evidence:", err)
+	}
+	if violations > 0 {
+		return core.ExitViolation
+	}
+	if len(leads) > 0 {
+		fmt.Println("MODEL-MISMATCH (spec-level counterexample not reproduced on the code):", leads)
+		return core.ExitInconclusive
+	}
+	fmt.Printf("OK property=%s tier=%s\n", c.Prop, c.Tier)
+	return core.ExitOK
+}
+
+func checkScenario(c *core.Ctx, sc Scenario) scenarioResult {
+	fail := func(code int) scenarioResult { return scenarioResult{code: code} }
 	known := core.LoadKnown().For(c.Prop)
 	maxCrashes := 1
 	if c.Thorough() {
 		maxCrashes = 2
 	}
-	c.Logf("TLC: KeyperCrash exhaustive, <=%d crashes, safety + liveness under fairness", maxCrashes)
+	c.Logf("scenario %s: TLC KeyperCrash exhaustive, <=%d crashes, safety + liveness under fairness", sc.Name, maxCrashes)
 	g, err := GenerateCrash(c, sc, maxCrashes)
 	if err != nil {
 		fmt.Println("INCONCLUSIVE:", err)
-		return core.ExitInconclusive
+		return fail(core.ExitInconclusive)
 	}
 	c.Logf("TLC: %d distinct states, %d abstract crash behaviours, specviol=%q, alternative gobzero: %q (%.1fs)", g.Distinct, len(g.Behaviours), g.SpecViol, g.AltViol, g.Wall)
 
@@ -197,16 +249,16 @@ func CheckC08(c *core.Ctx) int {
 	base, err := executeCrash(sc, seed, 0, nil, nil, true)
 	if err != nil {
 		fmt.Println("INCONCLUSIVE: crash-free run failed:", err)
-		return core.ExitInconclusive
+		return fail(core.ExitInconclusive)
 	}
 	base2, err := executeCrash(sc, seed, 0, nil, nil, true)
 	if err != nil || wireSig(base.wire) != wireSig(base2.wire) {
 		fmt.Println("INCONCLUSIVE: the protocol message sequence of the crash-free run is not reproducible", err)
-		return core.ExitInconclusive
+		return fail(core.ExitInconclusive)
 	}
 	if pm := base.kut.PG.PinMismatches(); len(pm) > 0 {
 		fmt.Println("INCONCLUSIVE: fakepg pin mismatches:", pm)
-		return core.ExitInconclusive
+		return fail(core.ExitInconclusive)
 	}
 	var twin []J
 	for _, l := range base.lines {
@@ -302,7 +354,7 @@ func CheckC08(c *core.Ctx) int {
 	for i, r := range runs {
 		if errs[i] != nil && (r == nil || len(r.lines) == 0) {
 			fmt.Printf("INCONCLUSIVE: case %s: %v\n", cases[i].Name, errs[i])
-			return core.ExitInconclusive
+			return fail(core.ExitInconclusive)
 		}
 		if errs[i] != nil {
 			// the keyper did not get through a step any more: an observed behaviour
@@ -318,7 +370,7 @@ func CheckC08(c *core.Ctx) int {
 	c.Logf("executed %d cases: all faults fired in %d, not (all) in %d", len(cases), fired, notFired)
 	if fired == 0 {
 		fmt.Println("INCONCLUSIVE: no fault fired")
-		return core.ExitInconclusive
+		return fail(core.ExitInconclusive)
 	}
 
 	// validate
@@ -358,14 +410,14 @@ func CheckC08(c *core.Ctx) int {
 	for _, ch := range chunks {
 		if ch.err != nil {
 			fmt.Println("INCONCLUSIVE:", ch.err)
-			return core.ExitInconclusive
+			return fail(core.ExitInconclusive)
 		}
 		lines += ch.vr.Lines
 		for _, n := range ch.vr.Drift {
 			driftN++
 			if driftN <= 8 && n >= 1 && n <= len(ch.lines) {
 				l := ch.lines[n-1]
-				fmt.Printf("DRIFT case=%s step=%s block=%d crashes=%d (observed step is not a step of the code-shaped spec)\n", cases[l.Run-1].Name, l.What, l.H, l.Crashes)
+				fmt.Printf("DRIFT scenario="+sc.Name+" case=%s step=%s block=%d crashes=%d (observed step is not a step of the code-shaped spec)\n", cases[l.Run-1].Name, l.What, l.H, l.Crashes)
 			}
 		}
 		for _, v := range ch.vr.Viol {
@@ -393,7 +445,7 @@ func CheckC08(c *core.Ctx) int {
 		}
 		violations++
 		if reported < 4 {
-			path := c.WriteReplay(fmt.Sprintf("%d", reported), CrashReplay{Prop: c.Prop, Seed: seed, Scenario: sc, Finding: f})
+			path := c.WriteReplay(fmt.Sprintf("%s-%d", sc.Name, reported), CrashReplay{Prop: c.Prop, Seed: seed, Scenario: sc, Finding: f})
 			c.Violation(path, fmt.Sprintf("monitor %s failed in step %s of block %d, case %s: %v", f.Monitor, f.Line.What, f.Line.H, f.Case.Name, f.Fired))
 			reported++
 		}
@@ -412,28 +464,11 @@ func CheckC08(c *core.Ctx) int {
 	cov := J{
 		"states": g.Distinct, "transitions": g.States, "traces_validated_against_impl": len(runs), "samples": samples,
 		"evaluations": len(cases), "distinct_nontrivial": len(distinct),
-		"rule": "TLC explores KeyperCrash exhaustively with a bounded number of crashes (safety monitors as invariants, completion and outbox drain as temporal properties under weak fairness, no state constraint) and prints every abstract crash behaviour; " +
-			"on the code side the fixed schedule is re-run once per crash case: connection dropped before the k-th client->server protocol message of the keyper under test (quick: every 5th k and every commit point; thorough: every k), " +
-			"connection dropped after applying a commit / autocommit delete, process death between an accepted broadcast and the outbox delete for every broadcast, the TLC behaviours concretised on the fly, and (thorough) pairs; " +
-			"evaluations = cases executed; distinct_nontrivial = distinct descriptions of where the faults actually fired (protocol message, statement, step) over the cases in which all faults fired",
 		"protocol_messages": M, "commit_points": commitPoints, "broadcasts": S, "cases_all_faults_fired": fired, "cases_fault_not_reached": notFired,
 		"tlc_wall_s": g.Wall, "tlc_behaviours": len(g.Behaviours), "trace_lines_validated": lines, "drift_lines": driftN,
-		"alternative_gobzero_counterexample": g.AltViol, "spec_level_counterexamples": leads,
-		"exhaustive": c.Thorough(),
+		"alternative_gobzero_counterexample": g.AltViol,
 	}
-	if err := ev.Write(ev.Evidence{PropertyID: c.Prop, Tier: c.Tier, Seed: c.Seed, Level: "model_checking", Coverage: cov,
-		Assumptions: assumptionsC08(), WallS: time.Since(c.Start).Seconds(), Violations: violations}); err != nil {
-		fmt.Fprintln(os.Stderr, "cannot write evidence:", err)
-	}
-	if violations > 0 {
-		return core.ExitViolation
-	}
-	if len(leads) > 0 {
-		fmt.Println("MODEL-MISMATCH (spec-level counterexample not reproduced on the code):", leads)
-		return core.ExitInconclusive
-	}
-	fmt.Printf("OK property=%s tier=%s\n", c.Prop, c.Tier)
-	return core.ExitOK
+	return scenarioResult{code: -1, violations: violations, cov: cov, leads: leads}
 }
 
 func matchKnownC08(known []core.Finding, f CrashFinding) *core.Finding {
